@@ -5,6 +5,7 @@ import (
 	"fmt"
 	"sort"
 	"strings"
+	"time"
 
 	sasl "github.com/emersion/go-sasl"
 	"github.com/fluffle/goirc/client"
@@ -169,9 +170,13 @@ func c19Run(c *Ctx, gen string, idx int, k c19Case) bool {
 		wantPayload = base64.StdEncoding.EncodeToString([]byte("~?>\xfb\xff"))
 		mech = "EXTERNAL"
 	}
+	var backing []string
 	s := NewSession(SessionOpts{Flood: true, Mutate: func(cfg *client.Config) {
 		cfg.EnableCapabilityNegotiation = true
-		cfg.Capabilites = append([]string(nil), k.Wanted...)
+		// the configured list is a prefix of a longer array that the application keeps using (another client's list,
+		// say): the library may read the prefix, the rest is none of its business
+		backing = append(append(make([]string, 0, len(k.Wanted)+2), k.Wanted...), "spare-one", "spare-two")
+		cfg.Capabilites = backing[:len(k.Wanted)]
 		cfg.Sasl = sc
 	}})
 	defer s.Release()
@@ -185,7 +190,21 @@ func c19Run(c *Ctx, gen string, idx int, k c19Case) bool {
 		return false
 	}
 	disc := make(chan struct{}, 4)
-	conn.HandleFunc(client.DISCONNECTED, func(_ *client.Conn, l *client.Line) { disc <- struct{}{} })
+	// in half of the repeated negotiations the reconnect is made inside the DISCONNECTED handler, which then stays
+	// busy until the new connection's negotiation is over
+	reconnInHandler := idx%10 == 2
+	reconnErr := make(chan error, 1)
+	release := make(chan struct{})
+	var lastHas map[string]bool
+	conn.HandleFunc(client.DISCONNECTED, func(cc *client.Conn, l *client.Line) {
+		disc <- struct{}{}
+		if reconnInHandler {
+			reconnInHandler = false
+			reconnErr <- cc.Connect()
+			<-release
+		}
+	})
+	keepOpen := false
 	var negotiate func(mc *rig.MemConn, dropMidSasl bool) (bool, bool)
 	negotiate = func(mc *rig.MemConn, dropMidSasl bool) (bool, bool) {
 		quiesce := func() bool {
@@ -500,23 +519,67 @@ func c19Run(c *Ctx, gen string, idx int, k c19Case) bool {
 				}
 			}
 		}
-		c19Done(c, gen, idx, k, conn, fmt.Sprintf("sasl-started=%v", saslStarted))
+		lastHas = has
+		c19DoneOpt(c, gen, idx, k, conn, fmt.Sprintf("sasl-started=%v", saslStarted), keepOpen)
 		return true, false
 	}
 	ok, dropped := negotiate(mc, idx%5 == 2)
 	if ok && dropped {
-		mc2, err := s.Connect()
+		var mc2 *rig.MemConn
+		var err error
+		held := idx%10 == 2
+		if held {
+			done := make(chan struct{})
+			go func() { err = <-reconnErr; close(done) }()
+			if !waitCh(done) {
+				c.R.Inconcl(fmt.Sprintf("%s: the DISCONNECTED handler never reconnected", Case(gen, idx)))
+				close(release)
+				return false
+			}
+			mc2 = s.EP.Last()
+		} else {
+			mc2, err = s.Connect()
+		}
 		if err != nil {
 			viol("reconnect-after-dropped-sasl", "Connect after the link dropped mid-SASL failed: "+err.Error())
+			if held {
+				close(release)
+			}
 			return true
 		}
 		c.R.Count("negotiations_repeated_after_a_drop_mid_sasl", 1)
+		keepOpen = held
 		ok, _ = negotiate(mc2, false)
+		if held {
+			// the old connection's teardown finishes only now: what the new connection negotiated stays as it is
+			close(release)
+			time.Sleep(2 * time.Millisecond)
+			if ok && s.WireMarker(mc2) {
+				for x, on := range lastHas {
+					if got := conn.HasCapability(x); got != on {
+						viol("has-after-old-teardown", fmt.Sprintf("HasCapability(%q) = %v once the previous connection's DISCONNECTED handler (which had reconnected) returned; the new connection's latest acknowledgement says %v", x, got, on))
+						break
+					}
+				}
+				c.R.Count("negotiations_inside_a_disconnected_handler", 1)
+			}
+			go conn.Close()
+		}
+	}
+	if len(backing) >= len(k.Wanted)+2 {
+		full := backing[:len(k.Wanted)+2]
+		if full[len(k.Wanted)] != "spare-one" || full[len(k.Wanted)+1] != "spare-two" || strings.Join(full[:len(k.Wanted)], " ") != strings.Join(k.Wanted, " ") {
+			viol("configured-list-overwritten", fmt.Sprintf("the array behind Config.Capabilites was %q (the configured list being its first %d elements) and is %q after the negotiation: whoever else uses that array now wants something else", append(append([]string{}, k.Wanted...), "spare-one", "spare-two"), len(k.Wanted), full))
+		}
 	}
 	return ok
 }
 
 func c19Done(c *Ctx, gen string, idx int, k c19Case, conn *client.Conn, note string) {
+	c19DoneOpt(c, gen, idx, k, conn, note, false)
+}
+
+func c19DoneOpt(c *Ctx, gen string, idx int, k c19Case, conn *client.Conn, note string, keepOpen bool) {
 	c.R.Eval(1)
 	wb := len(setOf(k.Wanted))
 	if wb > 5 {
@@ -530,5 +593,7 @@ func c19Done(c *Ctx, gen string, idx int, k c19Case, conn *client.Conn, note str
 	if idx%997 == 0 {
 		c.R.Sample(map[string]interface{}{"case": clipS(k.String()), "note": note})
 	}
-	go conn.Close()
+	if !keepOpen {
+		go conn.Close()
+	}
 }
